@@ -3,6 +3,7 @@
 // Floats cross the boundary as 16-hex-digit bit patterns.
 mod util;
 mod c12;
+mod c14;
 mod c16;
 mod c18;
 
@@ -16,6 +17,7 @@ fn dispatch(case: &Value) -> Value {
     let p = k.split('.').next().unwrap_or("");
     match p {
         "c12" => c12::run(k, case),
+        "c14" => c14::run(k, case),
         "c16" => c16::run(k, case),
         "c18" => c18::run(k, case),
         _ => json!({"unknown": k}),
